@@ -62,14 +62,13 @@ def run(ctx):
             continue
         want_line = None
         ml = marker.split("\n")
-        for i in range(len(L)):
-            if L[i:i + len(ml)] == ml:
-                want_line = i + len(ml) - 1
-                break
+        # (the same text may also occur legitimately elsewhere, e.g. a scratch access inside a larger frame)
+        want_lines = [i + len(ml) - 1 for i in range(len(L)) if L[i:i + len(ml)] == ml]
+        want_line = want_lines[0] if want_lines else None
         if kind == "first-instruction-is-function":
             want_line = 1        # the function's first instruction
         hits = [x for x in ia if x[1] == TITLE[code]]
-        on_line = [x for x in hits if want_line is None or int(x[4][0].split(".")[0]) == want_line]
+        on_line = [x for x in hits if want_line is None or int(x[4][0].split(".")[0]) in (want_lines if kind != "first-instruction-is-function" else [want_line])]
         if kind == "invalid-jump-to-function":
             # reported at the entered function's first instruction (the jump is the related location)
             fl = L.index(marker.split(" ")[1] + ":") + 1
